@@ -77,9 +77,81 @@ type Program struct {
 func (p *Program) WriteTo(cw *CodeWriter) {
 	for i, stmt := range p.Statements {
 		if i > 0 {
+			writeGuardSemicolon(cw, p.Statements[i-1], stmt)
 			cw.WriteNewline()
 		}
 		stmt.WriteTo(cw)
+	}
+}
+
+// writeGuardSemicolon: with optional semicolons omitted, a statement that
+// begins with '(', '[', a backtick or '-' would be read as a continuation of
+// the previous line when that line ends with an expression; in that case the
+// previous statement keeps its semicolon.
+func writeGuardSemicolon(cw *CodeWriter, prev, stmt Statement) {
+	if !cw.PrettyPrint || cw.WriteSemicolons || !endsWithExpression(prev) {
+		return
+	}
+	es, ok := stmt.(*ExpressionStatement)
+	if !ok || es.Expression == nil {
+		return
+	}
+	if startsWithBraceOrFunction(es.Expression) || startsWithContinuation(es.Expression) {
+		cw.WriteRune(';')
+	}
+}
+
+// endsWithExpression reports whether the text of the statement ends with an
+// expression whose terminating semicolon is omitted.
+func endsWithExpression(stmt Statement) bool {
+	switch v := stmt.(type) {
+	case *ExpressionStatement:
+		return v != nil && v.Expression != nil
+	case *LetStatement, *ReturnStatement:
+		return true
+	case *IfStatement:
+		if v.ElseBranch != nil {
+			return endsWithExpression(v.ElseBranch)
+		}
+		return endsWithExpression(v.ThenBranch)
+	case *WhileStatement:
+		return endsWithExpression(v.Body)
+	case *ForStatement:
+		return endsWithExpression(v.Body)
+	}
+	return false
+}
+
+// startsWithContinuation reports whether the first token written for the
+// expression is '(', '[', a backtick or a unary minus.
+func startsWithContinuation(e Expression) bool {
+	for {
+		switch v := e.(type) {
+		case *GroupedExpression, *ArrayLiteral, *MultiStringLiteral:
+			return true
+		case *UnaryExpression:
+			return v.Operator == "-"
+		case *BinaryExpression:
+			if v.Left.Precedence() < v.Precedence() {
+				return true // printed inside parentheses
+			}
+			e = v.Left
+		case *PostfixExpression:
+			if v.Left.Precedence() < PrecedencePostfix {
+				return true
+			}
+			e = v.Left
+		case *CallExpression:
+			e = v.Function
+		case *MemberExpression:
+			e = v.Object
+		case *AssignmentExpression:
+			e = v.Left
+		case *CompoundAssignmentExpression:
+			e = v.Left
+		default:
+			return false
+		}
 	}
 }
 
@@ -209,6 +281,7 @@ func (bs *BlockStatement) WriteTo(cw *CodeWriter) {
 	cw.IncreaseIndent()
 	for i, stmt := range bs.Statements {
 		if i > 0 {
+			writeGuardSemicolon(cw, bs.Statements[i-1], stmt)
 			cw.WriteNewline()
 		}
 		cw.WriteIndent()
